@@ -104,10 +104,19 @@ def run_tlc(ctx, module, cfg, env=None, workers=None, timeout=900, extra=(), xmx
     e.pop("JAVA_TOOL_OPTIONS", None)
     if env:
         e.update(env)
-    t = time.time()
-    p = subprocess.run(cmd, cwd=cwd or SPEC, capture_output=True, text=True, env=e)
+    for attempt in (1, 2, 3):
+        t = time.time()
+        p = subprocess.run(cmd, cwd=cwd or SPEC, capture_output=True, text=True, env=e)
+        wall = time.time() - t
+        # killed from outside well before its own time limit (out-of-memory killer on a loaded machine): not a verdict - try again
+        if p.returncode in (-9, 137) and wall < timeout - 30 and attempt < 3:
+            ctx.log("TLC run %s was killed after %.0fs (signal 9, not its time limit); retrying in 60s" % (name, wall))
+            shutil.rmtree(md, ignore_errors=True)
+            time.sleep(60)
+            continue
+        break
     r = Tlc()
-    r.wall = time.time() - t
+    r.wall = wall
     r.out, r.rc = p.stdout + p.stderr, p.returncode
     shutil.rmtree(md, ignore_errors=True)
     for ln in p.stdout.splitlines():
